@@ -537,18 +537,25 @@ class HexVar(Spec):
         return bytes(rng.getrandbits(8) for _ in range(L)).hex()
 
 
+COMMON_BIT_LENGTHS = (0, 1, 7, 8, 9, 16, 24, 32, 36, 40, 48, 64, 72, 77, 80, 88, 96, 128, 144, 192, 196)
+
+
 class BitsVar(Spec):
+    """bit string of any length in [lo, hi], half of the time one of the lengths the codecs use."""
+
     def __init__(self, lo: int, hi: int):
         self.lo, self.hi = lo, hi
 
     def strat(self):
         from hypothesis import strategies as st
 
-        return st.integers(self.lo, self.hi).flatmap(lambda L: st.integers(0, (1 << L) - 1).map(lambda v: _fmt_bits(v, L)))
+        common = [L for L in COMMON_BIT_LENGTHS if self.lo <= L <= self.hi] or [self.lo]
+        return st.one_of(st.integers(self.lo, self.hi), st.sampled_from(common)).flatmap(lambda L: st.integers(0, (1 << L) - 1).map(lambda v: _fmt_bits(v, L)))
 
     def canon(self, rng, k):
         mid = (self.lo + self.hi) // 2
-        L = mid if k < 2 else min(self.hi, mid + 3)
+        mid -= mid % 8
+        L = max(self.lo, mid) if k < 2 else min(self.hi, max(self.lo, mid) + 3)
         return _fmt_bits(rng.getrandbits(L) if L else 0, L)
 
 
